@@ -222,6 +222,11 @@ class Exec:
             return ListV(l.items + r.items)
         if isinstance(op, ast.Add) and isinstance(l, TupV) and isinstance(r, TupV):
             return TupV(l.items + r.items)
+        if isinstance(op, ast.Add) and isinstance(l, MapV) and isinstance(r, MapV) and not z3.is_array(l.arr.sort().range()):
+            arr = fresh("mapsum", AII)
+            k = z3.Int("k!ms")
+            self.cx.axioms.append(z3.ForAll([k], arr[k] == l.arr[k] + r.arr[k], patterns=[arr[k]]))
+            return MapV(arr)
         if isinstance(op, ast.Add) and isinstance(l, SeqV) and isinstance(r, SeqV):
             # list concatenation of two symbolic sequences: a named array with its defining axiom
             arr = fresh("concat", AII)
@@ -378,6 +383,10 @@ class Exec:
             if len(x.items) != len(y.items):
                 return z3.BoolVal(False)
             return z3.And(*[self.equal(p, q, st, node) for p, q in zip(x.items, y.items)]) if x.items else z3.BoolVal(True)
+        if isinstance(x, SeqV) and isinstance(y, ListV) and not y.items:
+            return x.n == 0
+        if isinstance(y, SeqV) and isinstance(x, ListV) and not x.items:
+            return y.n == 0
         if isinstance(x, ClsV) and isinstance(y, ClsV):
             return z3.BoolVal(x.name == y.name)
         if isinstance(x, (ClsV, ChoiceV)) and isinstance(y, (ClsV, ChoiceV)):
